@@ -309,11 +309,12 @@ func AnalyzeLoop(P *Program, fn *ssa.Function, opts *AnalyzeOpts) (*LoopStep, er
 		}
 		ls.Phis = append(ls.Phis, phi)
 		ls.Init[phi] = f.val(phi.Edges[predIndex(H, outside[0])])
-		w, sg, ok := intWidth(phi.Type())
-		if !ok {
-			return nil, fmt.Errorf("non-integer loop variable %s", phi.Comment)
+		var v Val
+		if w, sg, ok := intWidth(phi.Type()); ok {
+			v = srcBV(U.source("param", "loop."+phi.Comment, w), sg)
+		} else {
+			v = &OpaqueV{Why: "loop." + phi.Comment, T: phi.Type()}
 		}
-		v := srcBV(U.source("param", "loop."+phi.Comment, w), sg)
 		ls.Pre[phi] = v
 		f.env[phi] = v
 	}
@@ -339,7 +340,7 @@ func AnalyzeLoop(P *Program, fn *ssa.Function, opts *AnalyzeOpts) (*LoopStep, er
 	for _, phi := range ls.Phis {
 		ls.Next[phi] = f.val(phi.Edges[predIndex(H, back[0])])
 	}
-	ls.Cond = f.chain(back[0], H)
+	ls.Cond = band(f.chain(back[0], H), f.bc[edgeKey{back[0].Index, H.Index}])
 	ret, out := f.mergeReturns(hst)
 	ls.Ret = ret
 	ls.Sum = &Summary{Fn: fn, Params: params, Ret: ret, Out: out, Events: in.events, in: in, Init: newState()}
